@@ -282,8 +282,9 @@ func runC11(w *c11World) error {
 				return fmt.Errorf("BROKEN: prologue write: %v", err)
 			}
 			for c, p := range pipes {
-				if c != w.overflowFirst {
-					p.WaitWrites(k-20, bound)
+				if c != w.overflowFirst && !p.WaitWrites(k-20, bound) {
+					vp.UnblockWrites()
+					return fmt.Errorf("channel %d stopped receiving (%d of %d items) while channel %d is stalled", c, p.NumWrites(), k+1, w.overflowFirst)
 				}
 			}
 		}
@@ -298,8 +299,8 @@ func runC11(w *c11World) error {
 			time.Sleep(2 * time.Millisecond)
 		}
 		for c, p := range pipes {
-			if c != w.overflowFirst {
-				p.WaitWrites(80, bound)
+			if c != w.overflowFirst && !p.WaitWrites(80, bound) {
+				return fmt.Errorf("channel %d received %d of 80 items while channel %d was stalled", c, p.NumWrites(), w.overflowFirst)
 			}
 			preWrites[c] = p.NumWrites()
 		}
@@ -387,8 +388,15 @@ func runC11(w *c11World) error {
 							ok = false
 						}
 					}
-					if ok || time.Now().After(deadline) {
+					if ok {
 						break
+					}
+					if time.Now().After(deadline) {
+						failure.Store(fmt.Sprintf("producer %d op %d: a healthy channel did not put 24 pending items on the wire within %v (its backlog never reached the 64-item bound): items are being dropped or the channel is stuck", p, i, bound))
+						return
+					}
+					if failure.Load() != nil {
+						return
 					}
 					time.Sleep(50 * time.Microsecond)
 				}
